@@ -10,6 +10,7 @@ mod rg;
 mod fleet;
 mod wire;
 mod bv;
+mod rt;
 
 fn main() {
     let args: Vec<String> = std::env::args().collect();
@@ -33,6 +34,8 @@ fn main() {
         "wire-c01" => wire::c01(&a),
         "bv-vectors" => bv::vectors(&a),
         "bv-random" => bv::random(&a),
+        "rt-vectors" => rt::vectors(&a),
+        "rt-random" => rt::random(&a),
         other => {
             eprintln!("unknown engine {other}");
             2
